@@ -37,6 +37,15 @@ const (
 	akOK
 	akNotOK
 	akID
+	akEqEntry   // offset(current) == offset(at entry of the allocating method), compared at version ver
+	akNeEntry   // its negation
+	akEqNever   // offset == a negative constant: never true (offsets are >= 0, alloc.bounds)
+	akNeNever   // its negation: always true
+	akCallBool  // the boolean result of an analysed helper call (ver = call index*8 + result index)
+	akNotCallBool
+	akTrue
+	akFalse
+	akNegConst // a negative integer constant (never equal to an offset)
 )
 
 type aVal struct {
@@ -49,6 +58,11 @@ type aState struct {
 	miss   bool
 	marked int
 	dead   bool
+	// for "plain allocation fails only when every identifier is live":
+	hit     bool // usedMap[off(ver)] was looked up and found PRESENT, nothing written since
+	skipped bool // the offset was advanced at a point where the current offset had not just been found in use
+	cycle   bool // the branch "offset == offset at entry" was taken on its true edge (after an advance)
+	adv     bool // the last thing that happened was a legitimate advance of the offset (several stores make one advance)
 }
 
 func joinA(a, b aState, site int) aState {
@@ -58,10 +72,11 @@ func joinA(a, b aState, site int) aState {
 	if b.dead {
 		return a
 	}
-	r := aState{ver: a.ver, miss: a.miss && b.miss, marked: a.marked}
+	r := aState{ver: a.ver, miss: a.miss && b.miss, marked: a.marked, hit: a.hit && b.hit, skipped: a.skipped || b.skipped, cycle: a.cycle && b.cycle, adv: a.adv && b.adv}
 	if a.ver != b.ver {
 		r.ver = 100000 + site // a version of its own: nothing known about it
 		r.miss = false
+		r.hit = false
 	}
 	if a.marked != b.marked {
 		r.marked = -2
@@ -77,6 +92,20 @@ type allocSem struct {
 	ctx      string
 	marks    int
 	succ     int
+	leaks    []string
+	notFull  []string
+	entryVer int
+	calls    []*ssa.Call
+}
+
+func (a *allocSem) callIndex(c *ssa.Call) int {
+	for i, x := range a.calls {
+		if x == c {
+			return i
+		}
+	}
+	a.calls = append(a.calls, c)
+	return len(a.calls) - 1
 }
 
 func (a *allocSem) fail(pos token.Pos, format string, args ...any) {
@@ -155,6 +184,7 @@ func (a *allocSem) run(fn *ssa.Function, st0 aState, args []aVal, depth int, top
 	vals := map[ssa.Value]aVal{}
 	tup := map[ssa.Value][]aVal{}
 	helperRets := map[*ssa.Call][]aRet{}
+	postCall := map[*ssa.Call]aState{}
 	fwd := map[*ssa.Return][]aRet{}
 	for i, p := range fn.Params[1:] {
 		if i < len(args) {
@@ -185,6 +215,9 @@ func (a *allocSem) run(fn *ssa.Function, st0 aState, args []aVal, depth int, top
 		val := func(v ssa.Value) aVal {
 			if x, ok := vals[v]; ok {
 				return x
+			}
+			if c, isC := v.(*ssa.Const); isC && c.Value != nil && c.Value.Kind() == constant.Int && constant.Sign(c.Value) < 0 {
+				return aVal{k: akNegConst}
 			}
 			return aVal{}
 		}
@@ -230,6 +263,18 @@ func (a *allocSem) run(fn *ssa.Function, st0 aState, args []aVal, depth int, top
 						vals[x] = aVal{akNotOK, v.ver}
 					case akNotOK:
 						vals[x] = aVal{akOK, v.ver}
+					case akEqEntry:
+						vals[x] = aVal{akNeEntry, v.ver}
+					case akNeEntry:
+						vals[x] = aVal{akEqEntry, v.ver}
+					case akEqNever:
+						vals[x] = aVal{akNeNever, v.ver}
+					case akNeNever:
+						vals[x] = aVal{akEqNever, v.ver}
+					case akCallBool:
+						vals[x] = aVal{akNotCallBool, v.ver}
+					case akNotCallBool:
+						vals[x] = aVal{akCallBool, v.ver}
 					}
 				}
 			case *ssa.Lookup:
@@ -254,6 +299,29 @@ func (a *allocSem) run(fn *ssa.Function, st0 aState, args []aVal, depth int, top
 					}
 				}
 			case *ssa.BinOp:
+				if x.Op == token.EQL || x.Op == token.NEQ {
+					l, r := val(x.X), val(x.Y)
+					other, otherV := x.Y, r
+					cur := l
+					if !(l.k == akOff && l.ver == st.ver) {
+						cur, other, otherV = r, x.X, l
+					}
+					if cur.k == akOff && cur.ver == st.ver {
+						k := akOther
+						if otherV.k == akOff && otherV.ver == a.entryVer && a.entryVer != st.ver {
+							k = akEqEntry
+						} else if otherV.k == akNegConst {
+							k = akEqNever
+						}
+						_ = other
+						if k != akOther {
+							if x.Op == token.NEQ {
+								k++ // the negated kind follows its positive one
+							}
+							vals[x] = aVal{k, st.ver}
+						}
+					}
+				}
 				if x.Op == token.ADD {
 					l, r := val(x.X), val(x.Y)
 					if l.k == akOff && fieldLoad(x.Y, recv, "minValue") {
@@ -264,10 +332,18 @@ func (a *allocSem) run(fn *ssa.Function, st0 aState, args []aVal, depth int, top
 				}
 			case *ssa.Store:
 				if fieldAddr(x.Addr, recv, "offset") {
+					if !st.hit && !st.adv && !a.preScan(x) {
+						st.skipped = true
+					} else {
+						st.adv = true
+					}
 					st.ver = a.fresh(x)
 					st.miss = false
+					st.hit = false
+					st.cycle = false
 				} else if fieldAddr(x.Addr, recv, "usedMap") {
 					st.miss = false
+					st.hit = false
 				}
 			case *ssa.MapUpdate:
 				if fieldLoad(x.Map, recv, "usedMap") {
@@ -287,12 +363,14 @@ func (a *allocSem) run(fn *ssa.Function, st0 aState, args []aVal, depth int, top
 						a.fail(x.Pos(), "%s: the slot is marked used without a preceding lookup of the same offset that found it free (or the offset / the map changed in between): a live identifier can be handed out", fn.Name())
 					}
 					st.miss = false
+					st.hit = false
 					st.marked = st.ver
 				}
 			case *ssa.Call:
 				if bi, isB := x.Call.Value.(*ssa.Builtin); isB {
 					if bi.Name() == "delete" && fieldLoad(x.Call.Args[0], recv, "usedMap") {
 						st.miss = false
+						st.hit = false
 					}
 					continue
 				}
@@ -326,6 +404,14 @@ func (a *allocSem) run(fn *ssa.Function, st0 aState, args []aVal, depth int, top
 					if !js.dead {
 						st = js
 					}
+					postCall[x] = st
+					for k := range jv {
+						if k < callee.Signature.Results().Len() {
+							if bt, isB := callee.Signature.Results().At(k).Type().Underlying().(*types.Basic); isB && bt.Kind() == types.Bool && jv[k].k == akOther {
+								jv[k] = aVal{akCallBool, a.callIndex(x)*8 + k}
+							}
+						}
+					}
 					switch len(jv) {
 					case 1:
 						vals[x] = jv[0]
@@ -336,6 +422,8 @@ func (a *allocSem) run(fn *ssa.Function, st0 aState, args []aVal, depth int, top
 					// the receiver escapes into something not analysed: nothing is known afterwards
 					st.ver = a.fresh(x)
 					st.miss = false
+					st.hit = false
+					st.skipped = true
 				}
 			case *ssa.If:
 				c := val(x.Cond)
@@ -348,6 +436,56 @@ func (a *allocSem) run(fn *ssa.Function, st0 aState, args []aVal, depth int, top
 				case akNotOK:
 					if c.ver == st.ver {
 						sT.miss = true
+					}
+				case akEqEntry:
+					if c.ver == st.ver {
+						sT.cycle = true
+					}
+				case akNeEntry:
+					if c.ver == st.ver {
+						sF.cycle = true
+					}
+				case akEqNever:
+					sT.dead = true
+				case akNeNever:
+					sF.dead = true
+				case akCallBool, akNotCallBool:
+					// the outcomes of the helper are kept apart by the boolean it returned
+					ci, ri := c.ver/8, c.ver%8
+					if ci < len(a.calls) {
+						call := a.calls[ci]
+						if rs, ok := helperRets[call]; ok && postCall[call] == st {
+							var jt, jf aState
+							jt.dead, jf.dead = true, true
+							for _, r := range rs {
+								k := akOther
+								if ri < len(r.vals) {
+									k = r.vals[ri].k
+								}
+								if k != akFalse {
+									jt = joinA(jt, r.st, b.Index)
+								}
+								if k != akTrue {
+									jf = joinA(jf, r.st, b.Index)
+								}
+							}
+							if c.k == akNotCallBool {
+								jt, jf = jf, jt
+							}
+							sT, sF = jt, jf
+						}
+					}
+				}
+				switch c.k {
+				case akOK:
+					sT.adv, sF.adv = false, false
+					if c.ver == st.ver {
+						sT.hit = true
+					}
+				case akNotOK:
+					sT.adv, sF.adv = false, false
+					if c.ver == st.ver {
+						sF.hit = true
 					}
 				}
 				prop(b.Succs[0], sT)
@@ -372,7 +510,15 @@ func (a *allocSem) run(fn *ssa.Function, st0 aState, args []aVal, depth int, top
 				}
 				var rv []aVal
 				for _, r := range x.Results {
-					rv = append(rv, val(r))
+					v := val(r)
+					if c, isC := r.(*ssa.Const); isC && c.Value != nil && c.Value.Kind() == constant.Bool {
+						if constant.BoolVal(c.Value) {
+							v = aVal{k: akTrue}
+						} else {
+							v = aVal{k: akFalse}
+						}
+					}
+					rv = append(rv, v)
 				}
 				ar := aRet{st: st, vals: rv, ins: x}
 				if n := len(x.Results); n > 0 {
@@ -432,8 +578,19 @@ func (a *allocSem) fresh(site any) int {
 // checkAllocFresh analyses an allocating method (results: id, error); returns the problems found
 // (empty: the freshness discipline holds on every path).
 func checkAllocFresh(w *World, fn *ssa.Function) (problems []string, marks, successes int) {
+	problems, marks, successes, _ = checkAllocFreshLeaks(w, fn)
+	return
+}
+
+func checkAllocFreshLeaks(w *World, fn *ssa.Function) (problems []string, marks, successes int, leaks []string) {
+	problems, marks, successes, leaks, _ = checkAllocSem(w, fn)
+	return
+}
+
+func checkAllocSem(w *World, fn *ssa.Function) (problems []string, marks, successes int, leaks, notFull []string) {
 	a := &allocSem{w: w}
-	rs := a.run(fn, aState{ver: a.fresh(fn), marked: -1}, nil, 0, true)
+	a.entryVer = a.fresh(fn)
+	rs := a.run(fn, aState{ver: a.entryVer, marked: -1}, nil, 0, true)
 	for _, r := range rs {
 		if r.ins == nil || len(r.ins.Results) != 2 {
 			continue
@@ -444,7 +601,21 @@ func checkAllocFresh(w *World, fn *ssa.Function) (problems []string, marks, succ
 					continue
 				}
 			} else {
-				continue // an error return
+				// an error return: no slot may have been marked on a path to it - a slot marked used and
+				// not handed out is live for ever (the caller got no identifier to free), so allocation
+				// fails although not all identifiers are live
+				if _, isPhi := r.ins.Results[1].(*ssa.Phi); !isPhi && r.st.marked != -1 {
+					m := a.w.Pos(r.ins.Pos()) + ": " + fmt.Sprintf("%s: a slot is marked used on a path that ends in an error return: the identifier is never handed out and can never be allocated or freed again", fn.Name())
+					a.leaks = append(a.leaks, m)
+				}
+				if _, isPhi := r.ins.Results[1].(*ssa.Phi); !isPhi && (!r.st.cycle || r.st.skipped) {
+					why := "the scan has not come back to the offset it started from"
+					if r.st.cycle {
+						why = "an offset was stepped over without having been found in use"
+					}
+					a.notFull = append(a.notFull, a.w.Pos(r.ins.Pos())+": "+fmt.Sprintf("%s: failure is reported on a path where %s: allocation can fail although a free identifier exists", fn.Name(), why))
+				}
+				continue
 			}
 		}
 		a.succ++
@@ -461,5 +632,9 @@ func checkAllocFresh(w *World, fn *ssa.Function) (problems []string, marks, succ
 	if a.succ == 0 {
 		a.fail(fn.Pos(), "%s: no successful return", fn.Name())
 	}
-	return a.problems, a.marks, a.succ
+	return a.problems, a.marks, a.succ, a.leaks, a.notFull
 }
+
+// preScan: a store to offset that is not an advance of the scan - none on today's tree (Allocate
+// starts scanning where the last allocation stopped).
+func (a *allocSem) preScan(s *ssa.Store) bool { return false }
